@@ -2,6 +2,8 @@ import SurfProofs.Lemmas.Utf8
 import SurfProofs.Lemmas.Utf8Decoder
 import SurfProofs.Lemmas.PayloadNumeric
 import SurfProofs.Lemmas.DecoderStream
+import SurfProofs.Lemmas.DecoderEvents
+import SurfProofs.Lemmas.SgrChecked
 import SurfProofs.C03
 import SurfProofs.C15
 /-!
@@ -382,5 +384,161 @@ theorem C02_no_panic_stream_command_model (chunks : List (List UInt8)) :
       (∀ it ∈ per.flatten, commandOfItem commandModelAuto it ≠ .error .panic) ∧
       SurfModel.Tokenizer.decode commandModelAuto.toAuto s [] = .ok (none, s, []) :=
   C02_no_panic_stream_command commandModelAuto commandModelAuto_realises commandModelAuto_termOk chunks
+
+/-! ## E. event level: raw events, characters, table look-ups, byte-level numeric clauses -/
+
+open SurfProofs.DecoderEvents
+
+/-- `Payload.isScalar` is the specification `Scalar` -/
+theorem payload_isScalar_iff (c : Nat) : SurfModel.Payload.isScalar c = true ↔ Scalar c := by
+  simp only [SurfModel.Payload.isScalar, Scalar, Bool.or_eq_true, decide_eq_true_eq, Bool.and_eq_true]
+  omega
+
+/-- **Raw events (event decoder).** Every `Raw` event — whether it comes from bytes the tokenizer could not
+    match or from an accepted token whose decoder answered `None` (zero coordinate, unknown mode, colour text not
+    understood, …) — carries exactly the bytes of its item: it is non-empty and is the contiguous part of the
+    input between the bytes of the items before it and those after it.  Every automaton, every chunking. -/
+theorem C02_raw_events {σ : Type} (A : TAuto σ) (chunks : List (List UInt8)) :
+    ∃ per s, feedAll A.toAuto (init A.toAuto) chunks = .ok (per, s) ∧
+      ∀ pre it post b, per.flatten = pre ++ it :: post → eventOfItem A it = .ok (.raw b) →
+        b ≠ [] ∧ natBytes chunks.flatten =
+          natBytes (pre.flatMap Item.bytes) ++ b ++ natBytes (post.flatMap Item.bytes ++ s.buffer) := by
+  obtain ⟨per, s, h1, h2, _, h4⟩ := SurfProofs.C03.C03_conservation A.toAuto chunks
+  refine ⟨per, s, h1, ?_⟩
+  intro pre it post b hsplit hraw
+  have hb := eventOfItem_raw A it b hraw
+  subst hb
+  constructor
+  · have := h4 it (by rw [hsplit]; simp)
+    intro hnil
+    apply this
+    simpa [natBytes] using hnil
+  · rw [← h2, hsplit]
+    simp [natBytes]
+
+/-- the same for the command decoder -/
+theorem C02_raw_events_command {σ : Type} (A : TAuto σ) (chunks : List (List UInt8)) :
+    ∃ per s, feedAll A.toAuto (init A.toAuto) chunks = .ok (per, s) ∧
+      ∀ pre it post b, per.flatten = pre ++ it :: post → commandOfItem A it = .ok (.raw b) →
+        b ≠ [] ∧ natBytes chunks.flatten =
+          natBytes (pre.flatMap Item.bytes) ++ b ++ natBytes (post.flatMap Item.bytes ++ s.buffer) := by
+  obtain ⟨per, s, h1, h2, _, h4⟩ := SurfProofs.C03.C03_conservation A.toAuto chunks
+  refine ⟨per, s, h1, ?_⟩
+  intro pre it post b hsplit hraw
+  have hb := commandOfItem_raw A it b hraw
+  subst hb
+  constructor
+  · have := h4 it (by rw [hsplit]; simp)
+    intro hnil
+    apply this
+    simpa [natBytes] using hnil
+  · rw [← h2, hsplit]
+    simp [natBytes]
+
+/-- **Characters of the event stream are scalar values.** Over every automaton that realises the event grammar
+    and every chunking: whatever event an item becomes, the character it carries (a `Key(Char(c))` from the
+    literal key table, from UTF-8 text or from a kitty key code) is a Unicode scalar value. -/
+theorem C02_scalar_stream {σ : Type} (A : TAuto σ) (hR : SurfProofs.ProtoStream.Realises A) (hT : A.toAuto.TermOk)
+    (chunks : List (List UInt8)) :
+    ∃ per s, feedAll A.toAuto (init A.toAuto) chunks = .ok (per, s) ∧
+      ∀ it ∈ per.flatten, ∀ e, eventOfItem A it = .ok e → ∀ c, charOf e = some c → Scalar c := by
+  obtain ⟨per, h1, h2⟩ := SurfProofs.C03.C03_tokenize_reads A.toAuto hT chunks
+  refine ⟨per, _, h1, ?_⟩
+  intro it hit e he c hc
+  rw [h2] at hit
+  exact (payload_isScalar_iff c).mp
+    (eventOfItem_char A hR it (SurfProofs.C03.C03_token_sound A.toAuto _ it hit) e he c hc)
+
+/-- the same for the command decoder (`TerminalCommand::Char`), for every automaton -/
+theorem C02_scalar_stream_command {σ : Type} (A : TAuto σ) (chunks : List (List UInt8)) :
+    ∃ per s, feedAll A.toAuto (init A.toAuto) chunks = .ok (per, s) ∧
+      ∀ it ∈ per.flatten, ∀ e, commandOfItem A it = .ok e → ∀ c, charOf e = some c → Scalar c := by
+  obtain ⟨per, s, h1, _⟩ := SurfProofs.C03.C03_conservation A.toAuto chunks
+  refine ⟨per, s, h1, ?_⟩
+  intro it _ e he c hc
+  exact (payload_isScalar_iff c).mp (commandOfItem_char A it e he c hc)
+
+example : charOf (.key ⟨.char 8364, 0⟩) = some 8364 ∧ charOf (.char 65) = some 65 := ⟨rfl, rfl⟩
+
+/-- **The table look-ups of `sgr_color` / `sgr_face` never go out of range**: with `COLORS[..]`, `CUBE[..]`,
+    `GREYS[..]` modelled as panicking indexing (`SurfModel.SgrChecked`), the result is `.ok` of the function C06 /
+    C04 / `C02_total` reason about — on every parameter string (no grammar hypothesis needed).  The lengths of
+    the tables are re-decided on the tables regenerated from the implementation. -/
+theorem C02_sgr_tables (data : List Nat) :
+    SurfModel.SgrChecked.sgrFaceChecked data = .ok (SurfModel.Sgr.sgrFace data) :=
+  SurfProofs.SgrChecked.sgrFaceChecked_eq data
+
+/-! ### specification side of the mouse button code and of the 256-colour palette -/
+
+/-- xterm SGR mouse button code, low two bits and bit 6, as a table: (wheel bit, button bits) ↦ name.  The
+    names are the library's (its `MouseWheelDown` is xterm's button 4); C04 owns the naming, C02 only that the
+    name is a function of these three bits of the clamped number. -/
+def mouseTable : List ((Bool × Nat) × KeyName) :=
+  [((false, 0), .mouseLeft), ((false, 1), .mouseMiddle), ((false, 2), .mouseRight), ((false, 3), .mouseMove),
+   ((true, 0), .mouseWheelDown), ((true, 1), .mouseWheelUp), ((true, 2), .mouseMove), ((true, 3), .mouseMove)]
+
+def mouseNameSpec (e : Nat) : Option KeyName := mouseTable.lookup (e / 64 % 2 == 1, e % 4)
+
+theorem C02_mouse_name (e : Nat) : mouseNameSpec e = some (mouseName e) := by
+  have h4 : e % 4 < 4 := Nat.mod_lt _ (by omega)
+  have h2 : e / 64 % 2 < 2 := Nat.mod_lt _ (by omega)
+  unfold mouseNameSpec mouseName mouseTable
+  rcases Nat.lt_or_ge (e / 64 % 2) 1 with hw | hw
+  · have hw0 : e / 64 % 2 = 0 := by omega
+    have : e % 4 = 0 ∨ e % 4 = 1 ∨ e % 4 = 2 ∨ e % 4 = 3 := by omega
+    rcases this with hb | hb | hb | hb <;> (simp only [hw0, hb]; decide)
+  · have hw1 : e / 64 % 2 = 1 := by omega
+    have : e % 4 = 0 ∨ e % 4 = 1 ∨ e % 4 = 2 ∨ e % 4 = 3 := by omega
+    rcases this with hb | hb | hb | hb <;> (simp only [hw1, hb]; decide)
+
+/-- xterm's 256-colour palette above the 16 named entries: 6×6×6 cube with levels 0, 95, 135, 175, 215, 255,
+    then 24 greys 8, 18, …, 238 -/
+def xtermLevel (k : Nat) : Nat := if k = 0 then 0 else 55 + 40 * k
+
+def xtermPalette (i : Nat) : Option SurfModel.Sgr.Rgba :=
+  if 16 ≤ i ∧ i < 232 then
+    some ⟨xtermLevel ((i - 16) / 36), xtermLevel ((i - 16) / 6 % 6), xtermLevel ((i - 16) % 6), 255⟩
+  else if 232 ≤ i ∧ i < 256 then some ⟨8 + 10 * (i - 232), 8 + 10 * (i - 232), 8 + 10 * (i - 232), 255⟩
+  else none
+
+/-- the palette `sgr_color` uses is xterm's (for the indices the standard fixes) and has nothing above 255;
+    decided on the regenerated tables -/
+theorem C02_palette : (∀ i : Fin 256, 16 ≤ i.val → SurfModel.Sgr.palette i.val = xtermPalette i.val) ∧
+    (∀ i, 256 ≤ i → SurfModel.Sgr.palette i = none) := by
+  constructor
+  · decide +kernel
+  · intro i h
+    unfold SurfModel.Sgr.palette
+    rw [if_neg (by omega), if_neg (by omega), if_neg (by omega)]
+
+/-- **Numeric, byte level.** The same statements on whole sequences as they arrive: SGR true colour in the
+    semicolon form (in range: exactly that colour; last component above 255: no colour and nothing else), both
+    colon forms including the four-component one (colour-space id skipped), the complete size report, and key
+    codes that are not characters (above `u32::MAX`, surrogates / beyond U+10FFFF, private use block): the
+    sequence is unrecognised, never a truncated or wrapped character. -/
+theorem C02_numeric_bytes :
+    (∀ r g b, Digits r → Digits g → Digits b → clampDec r ≤ 255 ∧ clampDec g ≤ 255 ∧ clampDec b ≤ 255 →
+      decodeSgr ([27, 91] ++ (([51, 56] ++ 59 :: ([50] ++ 59 :: (r ++ 59 :: (g ++ 59 :: b)))) ++ [109])) =
+        .ok (some (.command { fg := some ⟨clampDec r, clampDec g, clampDec b, 255⟩ }))) ∧
+    (∀ r g b, Digits r → Digits g → Digits b → clampDec r ≤ 255 → clampDec g ≤ 255 → 255 < clampDec b →
+      decodeSgr ([27, 91] ++ (([51, 56] ++ 59 :: ([50] ++ 59 :: (r ++ 59 :: (g ++ 59 :: b)))) ++ [109])) =
+        .ok (some (.command {}))) ∧
+    (∀ (cs : Option (List Nat)) r g b, (∀ c, cs = some c → Digits c) → Digits r → Digits g → Digits b →
+      decodeSgr ([27, 91] ++ (([51, 56] ++ 58 :: ([50] ++ 58 ::
+          ((match cs with | some c => c ++ [58] | none => []) ++ (r ++ 58 :: (g ++ 58 :: b))))) ++ [109])) =
+        .ok (some (.command { fg := (if clampDec r ≤ 255 ∧ clampDec g ≤ 255 ∧ clampDec b ≤ 255
+          then some (SurfModel.Sgr.Rgba.mk (clampDec r) (clampDec g) (clampDec b) 255) else none) }))) ∧
+    (∀ h1 w1 h2 w2, Digits h1 → Digits w1 → Digits h2 → Digits w2 →
+      decodeTermSize (27 :: ((91 :: ([56] ++ ((59 :: (h1 ++ 59 :: w1)) ++ [116]))) ++
+          27 :: (91 :: ([52] ++ ((59 :: (h2 ++ 59 :: w2)) ++ [116]))))) =
+        .ok (some (.size (clampDec h1) (clampDec w1) (clampDec h2) (clampDec w2)))) ∧
+    (∀ c, Digits c → clampDec c ∉ [27, 13, 9, 127] → ¬ (57376 ≤ clampDec c ∧ clampDec c ≤ 57398) →
+      (4294967295 < clampDec c ∨ SurfModel.Payload.isScalar (clampDec c) = false ∨
+        (57344 ≤ clampDec c ∧ clampDec c ≤ 63743)) →
+      decodeKittyKeyboard ([27, 91] ++ (c ++ [117])) = .ok none) :=
+  ⟨sgr_truecolor_bytes, sgr_truecolor_bytes_high, sgr_truecolor_colon_bytes, termSize_numeric, kittyKey_rejected⟩
+
+/-- surrogates and twenty nines are such key codes -/
+example : SurfModel.Payload.isScalar 55296 = false ∧ 4294967295 < clampDec (List.replicate 20 57) := by decide
 
 end SurfProofs.C02
